@@ -43,6 +43,18 @@ class K:
       self.i = i
     def deep(self, d=0):
       return ('{pk}.alpha.K.Inner.deep', d, self.i)
+class Sub(K):
+  """alpha.Sub: inherits its constructor and its methods from K"""
+class S:
+  """alpha.S: a class with a static and a class method"""
+  def __init__(self, a=0):
+    self.a = a
+  @staticmethod
+  def st(s=0):
+    return ('{pk}.alpha.S.st', s)
+  @classmethod
+  def cm(cls, c=0):
+    return ('{pk}.alpha.S.cm', c)
 '''
 BETA = '''
 def fb(x=0):
